@@ -58,3 +58,39 @@ MUTANTS = [
              "    for w in sorted(helpers.neighbors(\n        v,\n        direction_sensitive=direction_sensitive,", 0),
         (DF, "        filterfunc=ff_via,\n    ):\n", "        filterfunc=ff_via,\n    ), key=id):\n", 0)]),
 ]
+
+MUTANTS += [
+    # ---------------- C08 -------------------------------------------------
+    dict(id="c08_revert_fix_d10", props=["C08"], edits=[
+        (DF, "            if ret is not None:\n", "            if ret:\n")]),
+    dict(id="c08_bfs_is_for_eq", props=["C08"], edits=[
+        (BF, "                if v[attrib] == val:\n", "                if v[attrib] is val:\n")]),
+    dict(id="c08_dfsi_skip_start", props=["C08"], edits=[
+        (DF, "    stack = [start]\n    discovered = []\n    while len(stack) != 0:\n        v = stack.pop()\n        if (uni is not None) and (v not in uni.vertices):\n            continue\n        if v not in discovered:\n            if hasattr(v, attrib):",
+             "    stack = [start]\n    discovered = []\n    while len(stack) != 0:\n        v = stack.pop()\n        if (uni is not None) and (v not in uni.vertices):\n            continue\n        if v not in discovered:\n            if hasattr(v, attrib) and v is not start:")]),
+    dict(id="c08_bfs_match_before_universe", props=["C08"], edits=[
+        (BF, "            if (uni is not None) and (v not in uni.vertices):\n                continue\n\n            # check for a match first",
+             "            # check for a match first"),
+        (BF, "            # make sure we don't re-visit as a duplicate\n            if v not in visited:\n                visited.add(v)\n                queue.append(v)\n\n    return None",
+             "            if (uni is not None) and (v not in uni.vertices):\n                continue\n            if v not in visited:\n                visited.add(v)\n                queue.append(v)\n\n    return None")]),
+    dict(id="c08_dfsr_match_only_unvisited_order", props=["C08"], edits=[
+        (DF, "        if w not in visited:\n            # check for a match first -- then we can exit early\n            if hasattr(w, attrib):\n                if w[attrib] == val:\n                    return w\n            ret = _dfs_recur",
+             "        if w not in visited:\n            ret = _dfs_recur(uni, w, visited, attrib, val)\n            if ret is not None:\n                return ret\n            if hasattr(w, attrib):\n                if w[attrib] == val:\n                    return w\n            ret = _dfs_recur")]),
+]
+
+RG = "edgegraph/builder/randgraph.py"
+AL = "edgegraph/builder/adjlist.py"
+MUTANTS += [
+    # ---------------- C20 -------------------------------------------------
+    dict(id="c20_revert_fix_d21", props=["C20"], edits=[(RG, "        k = min(k, count)\n", "")]),
+    dict(id="c20_off_by_one_verts", props=["C20"], edits=[
+        (RG, "    for i in range(count):\n\n", "    for i in range(max(1, count - 1) if connectivity == 0 else count):\n\n")]),
+    dict(id="c20_ensurelink_only_when_connected", props=["C20"], edits=[
+        (RG, "        if ensurelink:\n", "        if ensurelink and (connectivity > 1e-6 or i % 7):\n")]),
+    dict(id="c20_edge_type_ignored_for_late_vertices", props=["C20"], edits=[
+        (AL, "            explicit.link_from_to(v1, linktype, v2)\n",
+             "            explicit.link_from_to(v1, linktype if len(uni.vertices) < 9 else UnDirectedEdge, v2)\n")]),
+    dict(id="c20_unseeded_source", props=["C20"], edits=[
+        (RG, "        adj[verts[i]] = random.sample(verts, k)\n",
+             "        adj[verts[i]] = random.SystemRandom().sample(verts, k)\n")]),
+]
